@@ -137,12 +137,13 @@ def make_reactor(events, fail_bind):
 
     @implementer(IListeningPort)
     class Port:
-        def __init__(self, iface):
+        def __init__(self, iface, number):
             self.iface = iface
             self.open = True
+            self.number = number
 
         def getHost(self):
-            return IPv4Address('TCP', self.iface, BOUND)
+            return IPv4Address('TCP', self.iface, self.number)
 
         def startListening(self):
             self.open = True
@@ -150,7 +151,7 @@ def make_reactor(events, fail_bind):
         def stopListening(self):
             if self.open:
                 self.open = False
-                events.append('closed:%d' % BOUND)
+                events.append('closed:%d' % self.number)
             return defer.succeed(None)
 
     class R(MemoryReactorClock):
@@ -158,8 +159,10 @@ def make_reactor(events, fail_bind):
             if fail_bind:
                 events.append('bindFailed:%s' % interface)
                 raise error.CannotListenError(interface, port, OSError('in use'))
-            events.append('bound:%s:%d' % (interface, BOUND))
-            p = Port(interface)
+            # every bind gets a port of its own (a second listen() must forward to the second one)
+            number = BOUND + len(getattr(self, 'ports', []))
+            events.append('bound:%s:%d' % (interface, number))
+            p = Port(interface, number)
             self.ports = getattr(self, 'ports', []) + [p]
             return p
     return R()
@@ -214,7 +217,28 @@ def run_listen(c):
         elif fail == 'notConfig':
             config = defer.succeed(object())
         auth = AuthBasic(['alice']) if c['kind'] == 'eph-basic' else None
-        ep = TCPHiddenServiceEndpoint(reactor, config, c['public'], hidden_service_dir=hsdir, auth=auth, local_port=c.get('local_port'),
+        if c.get('how') in ('system_tor', 'string'):
+            # the control connection cannot be made: through the helper that makes it, and through an onion: string
+            from zope.interface import implementer
+            from twisted.internet.interfaces import IStreamClientEndpoint
+
+            @implementer(IStreamClientEndpoint)
+            class Refusing:
+                def connect(self, factory):
+                    return defer.fail(Failure(error.ConnectionRefusedError('control port closed')))
+            kw = dict(hidden_service_dir=hsdir, auth=auth, local_port=c.get('local_port'),
+                      ephemeral=(False if c['kind'] == 'fs-implicit' else None),
+                      private_key=('ED25519-V3:abcd' if c['key'] and c['kind'].startswith('eph') else None), version=c['version'])
+            if c['how'] == 'system_tor':
+                ep0 = TCPHiddenServiceEndpoint.system_tor(reactor, Refusing(), c['public'], **kw)
+            else:
+                from twisted.internet.endpoints import serverFromString
+                ep0 = serverFromString(reactor, 'onion:%d:controlPort=9051%s%s' % (
+                    c['public'], (':hiddenServiceDir=' + hsdir) if hsdir else '', (':version=%d' % c['version']) if c['version'] else ''))
+                for t in list(reactor.tcpClients):
+                    t[2].clientConnectionFailed(None, Failure(error.ConnectionRefusedError('control port closed')))
+            config = None
+        ep = ep0 if c.get('how') in ('system_tor', 'string') else TCPHiddenServiceEndpoint(reactor, config, c['public'], hidden_service_dir=hsdir, auth=auth, local_port=c.get('local_port'),
                                       ephemeral=(False if c['kind'] == 'fs-implicit' else None),
                                       private_key=('ED25519-V3:abcd' if c['key'] and c['kind'].startswith('eph') else None), version=c['version'])
         if c['kind'].startswith('fs'):
@@ -260,27 +284,58 @@ def run_listen(c):
                     else:
                         st.event('HS_DESC UPLOADED %s UNKNOWN %s' % (sid, d))
         extra = {}
+        bound_now = BOUND
+        if c.get('retry') and result and isinstance(result[0], Failure):
+            # the application tries again on the same endpoint object; this time Tor accepts and the uploads succeed
+            events.append('fail')
+            events.append('retry')
+            bound_now = BOUND + 1
+            st.scripted.pop('ADD_ONION', None)
+            st.scripted.pop('SETCONF', None)
+            n_ids = len(st.service_ids)
+            result = []
+            ep.listen(Factory.forProtocol(Protocol)).addCallbacks(lambda p: result.append(p), lambda f: result.append(f))
+            early = early or (bool(result) and not isinstance(result[0], Failure))
+            sid = (st.service_ids[-1] if len(st.service_ids) > n_ids else None) if c['kind'].startswith('eph') else HOST_FS[:-6]
+            if sid and not result:
+                dirs = ['$%040X' % i for i in (1, 2)]
+                for d in dirs:
+                    st.event('HS_DESC UPLOAD %s UNKNOWN %s descid' % (sid, d))
+                for d in dirs:
+                    st.event('HS_DESC UPLOADED %s UNKNOWN %s' % (sid, d))
+        if c.get('relisten') and result and not isinstance(result[0], Failure):
+            # the application stops the port and listens again on the same endpoint object
+            events.append('ok:%d' % result[0].getHost().onion_port)
+            result[0].stopListening()
+            events.append('relisten')
+            bound_now = BOUND + 1
+            result = []
+            ep.listen(Factory.forProtocol(Protocol)).addCallbacks(lambda p: result.append(p), lambda f: result.append(f))
         if not result:
             events.append('pending')
         elif isinstance(result[0], Failure):
             events.append('fail')
+            extra['error'] = result[0].type.__name__
         else:
             port = result[0]
             addr = port.getHost()
             events.append('ok:%d' % addr.onion_port)
-            expected_host = (sid + '.onion') if c['kind'] != 'eph-basic' else None
+            expected_host = ((sid or 'no-service-id') + '.onion') if c['kind'] != 'eph-basic' else None
             extra['host_ok'] = (expected_host is None) or (addr.onion_uri == expected_host)
             n_before = len(events)
             port.stopListening()
-            extra['stop_closes'] = events[n_before:] == ['closed:%d' % BOUND]
+            extra['stop_closes'] = events[n_before:] == ['closed:%d' % bound_now]
             events[:] = events[:n_before]
-        open_ports = [BOUND for p in getattr(reactor, 'ports', []) if p.open] if not (result and not isinstance(result[0], Failure)) else [BOUND]
+        open_ports = [p.number for p in getattr(reactor, 'ports', []) if p.open] if not (result and not isinstance(result[0], Failure)) else [bound_now]
         return {'events': events, 'open': open_ports, 'early': early, 'extra': extra}
     finally:
         for d in made_dirs:
             shutil.rmtree(d, ignore_errors=True)
 
 
+# "listen fails with that error"
+ERRORS = {'config': 'RuntimeError', 'notConfig': 'ValueError', 'bootstrap': 'TorProtocolError', 'bind': 'CannotListenError',
+          'command': 'TorProtocolError', 'uploads': 'RuntimeError', 'disconnect': 'TorDisconnectError'}
 FAIL_MODEL = {'none': 'none', 'config': 'config', 'notConfig': 'notConfig', 'bootstrap': 'bootstrap', 'bind': 'bind',
               'command': 'create', 'uploads': 'create', 'disconnect': 'create'}
 
@@ -292,6 +347,15 @@ def driver_line(c):
     return 'listen %d %d %s' % (c['public'], BOUND, FAIL_MODEL[c['fail']])
 
 
+def driver_lines(c):
+    ls = [driver_line(c)]
+    if c.get('retry'):
+        ls.append('listen %d %d none' % (c['public'], BOUND + 1))      # a retry is another listen(), on a fresh local port
+    if c.get('relisten'):
+        ls.append('relisten %d %d' % (c['public'], BOUND + 1))
+    return ls
+
+
 def spec_for(c):
     """the property, stated directly"""
     if c['api'] == 'validate':
@@ -301,21 +365,51 @@ def spec_for(c):
         return {'refused': bool(invalid), 'settled': None if invalid else 'ok:%d:%s' % (1 if eph else 0, auth), 'started': False}
     f = c['fail']
     lo = '127.0.0.1'
+    if f == 'none' and c.get('relisten'):
+        b2 = BOUND + 1
+        return {'events': ['bound:%s:%d' % (lo, BOUND), 'create:%d:%s:%d' % (c['public'], lo, BOUND), 'ok:%d' % c['public'], 'closed:%d' % BOUND, 'relisten',
+                           'bound:%s:%d' % (lo, b2), 'create:%d:%s:%d' % (c['public'], lo, b2), 'ok:%d' % c['public']], 'open': [b2], 'early': False,
+                'extra': {'host_ok': True, 'stop_closes': True}}
     if f == 'none':
         return {'events': ['bound:%s:%d' % (lo, BOUND), 'create:%d:%s:%d' % (c['public'], lo, BOUND), 'ok:%d' % c['public']], 'open': [BOUND], 'early': False,
                 'extra': {'host_ok': True, 'stop_closes': True}}
     if f in ('config', 'notConfig', 'bootstrap'):
         ev = ['fail']
+        if c.get('how') in ('system_tor', 'string'):
+            return {'events': ev, 'open': [], 'early': False, 'extra': {'error': 'ConnectionRefusedError'}}
     elif f == 'bind':
         ev = ['bindFailed:%s' % lo, 'fail']
     else:
         ev = ['bound:%s:%d' % (lo, BOUND), 'create:%d:%s:%d' % (c['public'], lo, BOUND), 'closed:%d' % BOUND, 'fail']
-    return {'events': ev, 'open': [], 'early': False, 'extra': {}}
+    if c.get('retry'):
+        b2 = BOUND + 1
+        return {'events': ev + ['retry', 'bound:%s:%d' % (lo, b2), 'create:%d:%s:%d' % (c['public'], lo, b2), 'ok:%d' % c['public']], 'open': [b2],
+                'early': False, 'extra': {'host_ok': True, 'stop_closes': True}}
+    return {'events': ev, 'open': [], 'early': False, 'extra': {'error': ERRORS[f]}}
 
 
 def run_cases(cases, drv, tier):
     common.quiet_twisted()
-    outs = drv.run([driver_line(c) for c in cases]) if drv is not None else None
+    outs = None
+    if drv is not None:
+        flat, first = [], []
+        for c in cases:
+            first.append(len(flat))
+            flat += driver_lines(c)
+        raw = drv.run(flat)
+        outs = []
+        for c, i in zip(cases, first):
+            o = raw[i]
+            if c.get('retry'):
+                # first attempt, then the retry: the two answers joined the way the harness records the two attempts
+                ev1, op1 = raw[i].split(' open=')
+                ev2, op2 = raw[i + 1].split(' open=')
+                o = ev1 + ';retry;' + ev2 + ' open=' + op2
+            if c.get('relisten'):
+                ev1, op1 = raw[i].split(' open=')
+                ev2, op2 = raw[i + 1].split(' open=')
+                o = ev1 + ';closed:%d;relisten;' % BOUND + ev2 + ' open=' + op2
+            outs.append(o)
     res = []
     for k, c in enumerate(cases):
         if c['api'] == 'validate':
@@ -343,7 +437,7 @@ def run_cases(cases, drv, tier):
                 corr_ok = (im['events'] == model['events'] and im['open'] == model['open'])
             spec = spec_for(c)
             res.append(Result(c, im, model, spec, corr_ok=corr_ok, prop_ok=(im == spec), in_h=True, nontrivial=True,
-                              tags=['listen', c['kind'], 'fail=' + c['fail'], 'v%s' % c['version']]))
+                              tags=['listen', c['kind'], 'fail=' + c['fail'], 'v%s' % c['version'], 'retry' if c.get('retry') else 'relisten' if c.get('relisten') else 'once']))
     return res
 
 
@@ -378,12 +472,32 @@ def gen_cases(rng, tier):
         yield {'api': 'listen', 'kind': kind, 'version': version, 'key': key, 'fail': fail, 'public': public, 'local_port': local_port}
         if fail == 'disconnect' and local_port is None:
             yield {'api': 'listen', 'kind': kind, 'version': version, 'key': key, 'fail': fail, 'public': public, 'local_port': local_port, 'busy': True}
+        if fail == 'config' and local_port is None:
+            if kind != 'fs-implicit':
+                yield {'api': 'listen', 'kind': kind, 'version': version, 'key': key, 'fail': fail, 'public': public, 'local_port': local_port,
+                       'how': 'system_tor'}
+            if kind in ('eph', 'fs-explicit') and not key:
+                yield {'api': 'listen', 'kind': kind, 'version': version, 'key': key, 'fail': fail, 'public': public, 'local_port': local_port,
+                       'how': 'string'}
+        if kind != 'eph-basic' and fail in ('command', 'uploads'):
+            # listen() again on the same endpoint object after the failure
+            yield {'api': 'listen', 'kind': kind, 'version': version, 'key': key, 'fail': fail, 'public': public, 'local_port': local_port, 'retry': True}
+        if kind != 'eph-basic' and fail == 'none' and local_port is None:
+            # listen(), stopListening(), listen() again on the same endpoint object
+            yield {'api': 'listen', 'kind': kind, 'version': version, 'key': key, 'fail': fail, 'public': public, 'local_port': local_port, 'relisten': True}
         if kind == 'eph' and fail in ('none', 'uploads') and local_port is None:
             yield {'api': 'listen', 'kind': kind, 'version': version, 'key': key, 'fail': fail, 'public': public, 'local_port': local_port,
                    'foreign_first': True}
 
 
 def classify(r):
+    c = r.case
+    if r.corr_ok is False or not c.get('relisten'):
+        return None
+    # exactly the recorded defect: everything as demanded except that the second listen() sends no forwarding request
+    want = [e for e in r.spec['events'] if e != 'create:%d:127.0.0.1:%d' % (c['public'], BOUND + 1)]
+    if r.impl['events'] == want and r.impl['open'] == r.spec['open']:
+        return 'C17-relisten-keeps-old-forwarding'
     return None
 
 
